@@ -275,6 +275,59 @@ theorem popBlank_trail (M : List Line) : Trail 1 (popBlank M) M := by
     simp
   · exact (Trail.refl M).mono (by omega)
 
+/-! ### `textSplitC` agrees with `textSplit` when nothing is stripped -/
+
+theorem splitNL_snoc_nl (s : List Char) : splitNL (s ++ ['\n']) = splitNL s ++ [[]] := by
+  have := splitNL_unlinesT_append (splitNL s) [] (splitNL_no_nl s) (by simp)
+  rwa [List.append_nil, ← append_nl_eq_unlinesT s] at this
+
+theorem splitNL_snoc_ne : ∀ (s : List Char) (c : Char), c ≠ '\n' →
+    ∃ init last, splitNL s = init ++ [last] ∧ splitNL (s ++ [c]) = init ++ [last ++ [c]]
+  | [], c, hc => ⟨[], [], by simp, by simpa using splitNL_of_noNL [c] (by simpa using hc.symm)⟩
+  | d :: t, c, hc => by
+    obtain ⟨init, last, h1, h2⟩ := splitNL_snoc_ne t c hc
+    by_cases hd : d = '\n'
+    · subst hd
+      exact ⟨[] :: init, last, by simp [h1], by simp [h2]⟩
+    · cases init with
+      | nil =>
+        refine ⟨[], d :: last, ?_, ?_⟩
+        · rw [splitNL_cons_ne hd t (by simpa using h1)]; rfl
+        · rw [List.cons_append, splitNL_cons_ne hd _ (by simpa using h2)]; rfl
+      | cons i0 irest =>
+        refine ⟨(d :: i0) :: irest, last, ?_, ?_⟩
+        · rw [splitNL_cons_ne hd t (by simpa using h1)]; rfl
+        · rw [List.cons_append, splitNL_cons_ne hd _ (by simpa using h2)]; rfl
+
+theorem endsNL_false_of_not_mem {s : List Char} (h : '\n' ∉ s) : endsNL s = false := by
+  cases hx : endsNL s with
+  | false => rfl
+  | true =>
+    obtain ⟨s0, rfl⟩ := endsNL_iff.mp hx
+    exact absurd (by simp) h
+
+theorem textSplitC_eq (s : List Char) (b : Bool) (h : ∀ c ∈ s, isStripCtl c = false) : textSplitC s b = textSplit s b := by
+  unfold textSplitC textSplit
+  cases b with
+  | true => simp
+  | false =>
+    simp only [Bool.not_false, Bool.true_and]
+    rcases List.eq_nil_or_concat s with h0 | ⟨s0, c, hs⟩
+    · subst h0; simp
+    · rw [List.concat_eq_append] at hs
+      subst hs
+      by_cases hc : c = '\n'
+      · subst hc
+        rw [splitNL_snoc_nl, endsNL_append_singleton]
+        simp [stripCtl]
+      · obtain ⟨init, last, h1, h2⟩ := splitNL_snoc_ne s0 c hc
+        have hne : c ≠ '\n' := hc
+        rw [h2, endsNL_append_singleton]
+        have hcc : isStripCtl c = false := h c (by simp)
+        have : (stripCtl (last ++ [c])).isEmpty = false := by
+          simp [stripCtl, List.filter_append, hcc]
+        simp [this, hne]
+
 theorem popBlank_prefix' (X : List Line) : popBlank X <+: X := by
   unfold popBlank; split
   · exact List.dropLast_prefix X
